@@ -425,6 +425,28 @@ def check_cursor_scratch(P, ctx):
                 e = n['expr']
                 if e[0] == 'assign' and e[1] == '=' and ir.top_nocast(e[2])[0] == 'local' and is_cursor(e[3]):
                     alias.add(ir.top_nocast(e[2])[2])
+            # save / restore: a local that receives the cursor content and is used for nothing but storing it back does not make
+            # the result depend on it
+            saved = set()
+            for n in nodes:
+                e = n['expr']
+                if e[0] == 'assign' and e[1] == '=' and ir.top_nocast(e[2])[0] == 'local':
+                    r = ir.top_nocast(e[3])
+                    if r[0] in ('arrow', 'dot') and r[2] == 'val' and is_cursor(r[1]):
+                        lid = ir.top_nocast(e[2])[2]
+                        uses = []
+                        for m_ in nodes:
+                            for x in ir.walk(m_['expr']):
+                                if x[0] == 'local' and len(x) > 2 and x[2] == lid and m_ is not n:
+                                    uses.append(m_)
+                        def restores(m_):
+                            t = m_['expr']
+                            if t[0] != 'assign' or t[1] != '=':
+                                return False
+                            l = ir.top_nocast(t[2])
+                            return l[0] in ('arrow', 'dot') and l[2] == 'val' and is_cursor(l[1]) and ir.top_nocast(t[3]) == ('local', ir.top_nocast(e[2])[1], lid)
+                        if uses and all(restores(m_) for m_ in uses):
+                            saved.add(lid)
 
             def scan(e, n, lhs_store=False):
                 if not ir.is_expr(e):
@@ -439,12 +461,16 @@ def check_cursor_scratch(P, ctx):
                         return
                     if t[0] == 'local' and is_cursor(e[3]):
                         return          # alias definition
+                    if t[0] == 'local' and t[2] in saved:
+                        return          # save for a later restore
                     scan(e[3], n)
                     for c in ir.children(t):
                         scan(c, n)
                     return
                 if k in ('arrow', 'dot') and e[2] == 'val' and is_cursor(e[1]):
                     reads.append((n, 'reads `%s`' % ir.fmt(e)[:60]))
+                    return
+                if k == 'local' and e[2] in saved:
                     return
                 if k == 'call':
                     for a in e[2]:
@@ -718,61 +744,118 @@ def check_slice_clamp(P, ctx):
 
 def check_slice_positions(P, ctx):
     """Slice.iter_init / iter_last position the underlying iterable at the first / last position the slice selects
-    (range_spec(start, stop, step) over positions 0..L-1), or answer Terminal when it selects none.  Evaluated with the
-    underlying iterable abstracted to positions (iter_init = 0, iter_last = L-1, iter_next/iter_prev = +-1, Terminal = -1)."""
+    (range_spec(start, stop, step) over positions 0..L-1) or answer Terminal when it selects none; iter_next / iter_prev from the
+    k-th selected position land on the (k+1)-th / (k-1)-th or answer Terminal at the ends.  Evaluated with the underlying
+    iterable abstracted to positions (iter_init = 0, iter_last = L-1, iter_next/iter_prev = +-1, Terminal = -1); the Range
+    cursor the Slice embeds is an atom the functions may store into and read (it counts the position within the slice)."""
     from . import cint
     rule = 'C11.slice-ends'
     S = ('param', 0)
     RNG = ('arrow', S, 'range')
-    for m in ('iter_init', 'iter_last'):
-        fn = P.fn(P.slot('Slice', 'Iter', m))
-        ctx.fn(fn)
-        N = util.Norm(P, fn, expand_locals=True, inline=False)
-        bad = None
-        n_eval = 0
-        for L in range(0, 6):
-            for a in range(0, L + 1):
-                for b in range(0, L + 1):
-                    for c in (-3, -2, -1, 1, 2, 3):
-                        E = range_spec(a, b, c)
+    CUR = ('arrow', ('arrow', RNG, 'value'), 'val')
+    fns = {m: P.fn(P.slot('Slice', 'Iter', m)) for m in ('iter_init', 'iter_last', 'iter_next', 'iter_prev')}
+    Ns = {m: util.Norm(P, f, expand_locals=True, inline=False) for m, f in fns.items()}
+    bad = {m: None for m in fns}
+    n_eval = {m: 0 for m in fns}
 
-                        def call(nm, e, it, L=L, E=E):
-                            if nm == 'len':
-                                return L
-                            if nm == 'Range_Len':
-                                return len(E)
-                            if nm == 'iter_init':
-                                return 0 if L > 0 else -1
-                            if nm == 'iter_last':
-                                return L - 1
-                            if nm in ('iter_next', 'iter_prev'):
-                                pz = it.ev(e[2][1])
-                                if pz < 0:
-                                    raise cint.NoEval('%s applied to Terminal' % nm)
-                                q = pz + (1 if nm == 'iter_next' else -1)
-                                return q if 0 <= q < L else -1
-                            raise cint.NoEval('call %s' % nm)
-                        atoms = {('arrow', RNG, 'start'): a, ('arrow', RNG, 'stop'): b, ('arrow', RNG, 'step'): c, ('global', 'Terminal'): -1}
-                        it = cint.CInt(P, fn, atoms=atoms, call=call, N=N)
-                        r = it.run([3001])
-                        n_eval += 1
-                        want = (E[0] if m == 'iter_init' else E[-1]) if E else -1
+    def run(m, L, a, b, c, E, cur, arg=None):
+        def call(nm, e, it):
+            if nm == 'len':
+                return L
+            if nm == 'Range_Len':
+                return len(E)
+            if nm == 'iter_init':
+                return 0 if L > 0 else -1
+            if nm == 'iter_last':
+                return L - 1
+            if nm in ('iter_next', 'iter_prev'):
+                pz = it.ev(e[2][1])
+                if pz < 0:
+                    raise cint.NoEval('%s applied to Terminal' % nm)
+                q = pz + (1 if nm == 'iter_next' else -1)
+                return q if 0 <= q < L else -1
+            raise cint.NoEval('call %s' % nm)
+        atoms = {('arrow', RNG, 'start'): a, ('arrow', RNG, 'stop'): b, ('arrow', RNG, 'step'): c, ('global', 'Terminal'): -1, CUR: cur}
+        it = cint.CInt(P, fns[m], atoms=atoms, call=call, N=Ns[m])
+        r = it.run([3001] if arg is None else [3001, arg])
+        n_eval[m] += 1
+        return r, it.atoms.get(CUR)
+    for L in range(0, 6):
+        for a in range(0, L + 1):
+            for b in range(0, L + 1):
+                for c in (-3, -2, -1, 1, 2, 3):
+                    E = range_spec(a, b, c)
+                    ctxt = 'slice over %d items with start %d, stop %d, step %d selects positions %s' % (L, a, b, c, E)
+                    # a walk from each end, carrying the cursor content from call to call as the functions leave it
+                    for first, step, order in (('iter_init', 'iter_next', E), ('iter_last', 'iter_prev', E[::-1])):
+                        if bad[first] or bad[step]:
+                            continue
+                        r, cur = run(first, L, a, b, c, E, 77)
+                        want = order[0] if order else -1
                         if r[0] != 'ret' or r[1] != want:
-                            got = r[1] if r[0] == 'ret' else '%s: %s' % (r[0], r[1])
-                            bad = 'slice over %d items with start %d, stop %d, step %d selects positions %s: %s gives %s, expected %s' % (
-                                L, a, b, c, E, m, 'Terminal' if got == -1 else got, 'Terminal' if want == -1 else 'position %d' % want)
-                            break
-                    if bad:
-                        break
-                if bad:
-                    break
-            if bad:
-                break
-        ctx.stats['paths'] += n_eval
-        ctx.check(bad is None, rule, 'Slice.' + m, site(fn),
-                  '%s of a Slice lands on the %s selected position, or is Terminal for an empty selection (%d parameter points, lengths 0..5)' % (
-                      m, 'first' if m == 'iter_init' else 'last', n_eval), [bad] if bad else None)
-    ctx.floor(rule, 2)
+                            bad[first] = '%s: %s gives %s, expected %s' % (ctxt, first, 'Terminal' if r[1] == -1 else (r[1] if r[0] == 'ret' else '%s: %s' % (r[0], r[1])),
+                                                                           'Terminal' if want == -1 else 'position %d' % want)
+                            continue
+                        for k in range(len(order)):
+                            r, cur = run(step, L, a, b, c, E, cur, arg=order[k])
+                            want = order[k + 1] if k + 1 < len(order) else -1
+                            if r[0] != 'ret' or r[1] != want:
+                                bad[step] = '%s: %s from position %d (element %d of the walk) gives %s, expected %s' % (
+                                    ctxt, step, order[k], k, 'Terminal' if r[1] == -1 else (r[1] if r[0] == 'ret' else '%s: %s' % (r[0], r[1])),
+                                    'Terminal' if want == -1 else 'position %d' % want)
+                                break
+    for m, fn in fns.items():
+        ctx.fn(fn)
+        ctx.stats['paths'] += n_eval[m]
+        what = {'iter_init': 'lands on the first selected position, or is Terminal for an empty selection',
+                'iter_last': 'lands on the last selected position, or is Terminal for an empty selection',
+                'iter_next': 'steps to the next selected position and is Terminal after the last one',
+                'iter_prev': 'steps to the previous selected position and is Terminal before the first one'}[m]
+        ctx.check(bad[m] is None, rule, 'Slice.' + m, site(fn), '%s of a Slice %s (%d evaluations, underlying lengths 0..5)' % (m, what, n_eval[m]),
+                  [bad[m]] if bad[m] else None)
+    ctx.floor(rule, 4)
+
+
+def check_cursor_loops(P, ctx):
+    """The end of an iteration is the object Terminal, not NULL: a loop that runs while a cursor obtained from iter_init / iter_next
+    (or a container's own cursor functions) is merely non-NULL walks on from Terminal."""
+    rule = 'C11.cursor-loop-ends-at-Terminal'
+    n_loops = 0
+    for up in UNITS:
+        if not up.startswith('src/'):
+            continue
+        for fname, fn in sorted(P.units[up]['functions'].items()):
+            if fn.get('body') is None:
+                continue
+            g = P.cfg(fn)
+            curs = {}
+            for n in g.live():
+                if n['expr'] is None:
+                    continue
+                for ev in util.expr_events(n['expr'], n):
+                    if ev['t'] == 'write' and ev['op'] == '=' and ev['rhs'] is not None and ir.top_nocast(ev['lhs'])[0] == 'local':
+                        r = ir.top_nocast(ev['rhs'])
+                        if r[0] == 'call' and ((ir.callee_name(r) or '') in ('iter_init', 'iter_next', 'iter_last', 'iter_prev')
+                                               or (ir.callee_name(r) or '').endswith(('_Iter_Init', '_Iter_Next', '_Iter_Last', '_Iter_Prev'))):
+                            curs.setdefault(ir.top_nocast(ev['lhs'])[2], ir.top_nocast(ev['lhs'])[1])
+            if not curs:
+                continue
+            bad = []
+            for n in g.live():
+                if n['kind'] != 'cond':
+                    continue
+                c = ir.top_nocast(n['expr'])
+                bare = c[0] == 'local' and c[2] in curs
+                null = c[0] == 'bin' and c[1] in ('==', '!=') and any(ir.top_nocast(x)[0] == 'local' and ir.top_nocast(x)[2] in curs for x in (c[2], c[3])) and \
+                    any(ir.is_null(x) for x in (c[2], c[3]))
+                if (bare or null) and g.innermost_loop_of(n['id']):
+                    bad.append(n)
+            n_loops += 1
+            ctx.fn(fn)
+            ctx.check(not bad, rule, fname, site(fn, bad[0]['line'] if bad else None),
+                      'every loop over a cursor of an iteration ends at Terminal (a cursor is never NULL)',
+                      ['loop test on the bare cursor at %s' % g.describe(b) for b in bad[:3]] or None)
+    ctx.floor(rule, 5)
 
 
 def run(ctx, load):
@@ -793,6 +876,7 @@ def run(ctx, load):
     check_zip_alignment(P, ctx)
     check_slice_clamp(P, ctx)
     check_slice_positions(P, ctx)
+    check_cursor_loops(P, ctx)
     from .rules_c04 import check_list_links
     before = len(ctx.obs)
     check_list_links(P, ctx)
